@@ -95,7 +95,7 @@ class World:
         self.node = nodesim.SimNode(self.sim, {
             'pending_key': cfg.get('pending_key', 'validated'), 'pending_pairs': cfg.get('pending_pairs', False),
             'block_delay_s': cfg.get('block_delay_s', 8), 'chain_name': cfg.get('chain_name', 'TEZOS_MAINNET'),
-            'bake_jitter_ms': cfg.get('bake_jitter_ms', []),
+            'bake_jitter_ms': cfg.get('bake_jitter_ms', []), 'filter_rpc': cfg.get('filter_rpc', 'default'),
         })
         sk, pk, pkh = KEYS[cfg.get('key', 'tz1')]
         self.pkh = pkh
@@ -196,6 +196,10 @@ class World:
         if op == 'sleep':
             self.sim.advance(int(st['s'] * 1000))
             return
+        if op == 'noise' and st.get('own_foreign'):
+            node.add_foreign_kind_pending(self.pkh, kind=st.get('kind', 'increase_paid_storage'), n=st.get('n', 1))
+            self.bump(self.info, 'own_pending_operation_of_foreign_kind')
+            return
         if op == 'noise' and st.get('own_stale'):
             node.add_stale_own_op(self.pkh, where=st.get('where', 'outdated'), n=st.get('n', 1))
             self.bump(self.info, 'own_stale_operation_listed')
@@ -213,6 +217,9 @@ class World:
             else:
                 for s in specs:
                     grp = make_content(self.client if grp is None else grp, s, client=self.client)
+            if st.get('preset_signature') and grp is not None and hasattr(grp, 'contents'):
+                # a group rebuilt from a stored payload still carries the signature it had (of another key kind)
+                grp = self.client.operation_group(contents=list(grp.contents), signature=oc.b58enc('sig', b'\x07' * 64))
             call = None
             if st.get('via') == 'call' and len(specs) == 1 and specs[0]['kind'] == 'contract_call':
                 # keep the ContractCall itself: `send` then goes through ContractCall.send()
